@@ -19,7 +19,7 @@ import (
 // Op is one step of a history. Indices are interpreted modulo the number of live objects, so every history is
 // executable and shrinks freely.
 type Op struct {
-	K   string `json:"k"`             // ins | dup | del | delabsent | drain | search | nn | knn
+	K   string `json:"k"`             // ins | dup | del | delnear | delchain | fill | delabsent | drain | search | nn | knn
 	Box [4]int `json:"box,omitempty"` // x, y, w, h on a small integer grid (ins, search)
 	Idx int    `json:"idx,omitempty"` // which live object (dup, del, delabsent), drain stride
 	Qx  int    `json:"qx,omitempty"`  // query point in half units (nn, knn)
@@ -77,6 +77,30 @@ func GenHistory(t *rapid.T, queries string) History {
 		h.Min = rapid.IntRange(2, h.Max/2).Draw(t, "bigmin")
 		grid = 60
 	}
+	// tall: a narrow fan-out, a build phase of 60-200 inserts and 'delnear' steps (the 2-10 objects nearest to a stored
+	// one deleted one after the other, which empties whole subtrees and makes chains of nodes underflow in one Delete) and
+	// 'delchain' steps (the Delete that makes the longest chain of minimal nodes underflow). filler: a third of them, with
+	// a smaller build phase and 'fill' steps (see Model.fill) each followed by a 'delchain' step.
+	tall := rapid.IntRange(0, 3).Draw(t, "tall") == 0
+	filler := tall && rapid.IntRange(0, 2).Draw(t, "filler") == 0
+	if tall {
+		h.Max = rapid.SampledFrom([]int{4, 4, 4, 5, 6}).Draw(t, "tallmax")
+		if filler {
+			h.Max = 4
+		}
+		h.Min = 2
+		grid = 40
+		lo, hi := 60, 200
+		if filler {
+			lo, hi = 20, 90 // height 3-4: what 'fill' can bring to the state it aims at with a few hundred insertions
+			if n > 40 {
+				n = 40
+			}
+		}
+		for i, nb := 0, rapid.IntRange(lo, hi).Draw(t, "tallbuild"); i < nb; i++ {
+			h.Ops = append(h.Ops, Op{K: "ins", Box: [4]int{rapid.IntRange(0, grid).Draw(t, "tx"), rapid.IntRange(0, grid).Draw(t, "ty"), rapid.IntRange(0, 2).Draw(t, "tw"), rapid.IntRange(0, 2).Draw(t, "th")}})
+		}
+	}
 	// phases make growth followed by shrinkage likely: bias changes between insert-heavy and delete-heavy; phase 3 piles
 	// coincident and concentric boxes on one hot spot (a node whose entries all share a point, one nested in all others)
 	phase := rapid.SampledFrom([]int{0, 0, 0, 3}).Draw(t, "phase0")
@@ -105,9 +129,26 @@ func GenHistory(t *rapid.T, queries string) History {
 		default:
 			kinds = []string{"ins", "del", "ins", "del", "dup", "q", "q", "delabsent"}
 		}
+		if tall {
+			kinds = append(kinds, "delnear", "delchain", "delchain", "ins", "ins")
+		}
+		if filler {
+			kinds = append(kinds, "fill")
+		}
 		k := rapid.SampledFrom(kinds).Draw(t, "op")
 		op := Op{K: k}
 		switch k {
+		case "delnear":
+			op.Idx = rapid.IntRange(0, 1000).Draw(t, "idx")
+			op.Kn = rapid.IntRange(2, 10).Draw(t, "nearcount")
+		case "delchain":
+			op.Idx = rapid.IntRange(0, 1000).Draw(t, "idx")
+		case "fill":
+			// fill, then the Delete it prepares
+			op.Idx = rapid.IntRange(0, 1000).Draw(t, "idx")
+			op.Kn = rapid.SampledFrom([]int{300, 300, 300, 60, 15}).Draw(t, "fillcap")
+			h.Ops = append(h.Ops, op)
+			op = Op{K: "delchain", Idx: rapid.IntRange(0, 1000).Draw(t, "idx")}
 		case "hot":
 			r := rapid.SampledFrom([]int{0, 0, 0, 1, 2, 3, 5}).Draw(t, "hotr")
 			if hotWide {
@@ -185,6 +226,153 @@ func (m *Model) mk(b [4]int, f [4]float64) geom.Geom {
 		return BoxObj{ID: m.next % 3, X0: x0, Y0: y0, X1: x1, Y1: y1} // few ids: equal values do occur
 	}
 	return &geom.Bounds{Min: geom.Point{X: x0, Y: y0}, Max: geom.Point{X: x1, Y: y1}}
+}
+
+// mkAt makes an object of the history's kind that occupies the single position (x, y).
+func (m *Model) mkAt(x, y float64) geom.Geom {
+	m.next++
+	switch m.Kind {
+	case "point":
+		return geom.Point{X: x, Y: y}
+	case "custom":
+		return BoxObj{ID: m.next % 3, X0: x, Y0: y, X1: x, Y1: y}
+	}
+	return &geom.Bounds{Min: geom.Point{X: x, Y: y}, Max: geom.Point{X: x, Y: y}}
+}
+
+// fill is the structure-directed step behind 'one Delete that makes a chain of nodes underflow while everything else
+// is full': it reads the verif snapshot, sets aside the child of the root that holds a leaf whose ancestors below the
+// root all hold just the minimum number of entries, and inserts point objects placed inside chosen leaves until every
+// other node, the root included, holds the maximum number of entries (or Kn insertions were made). Re-insertions made
+// by the following Delete then split nodes all the way up, the root included.
+func (m *Model) fill(op Op) {
+	t := m.Tree
+	area := func(b geom.Bounds) float64 { return (b.Max.X - b.Min.X) * (b.Max.Y - b.Min.Y) }
+	// land predicts the nodes an object at (x, y) passes on its way to a leaf (least enlargement, then least area, first
+	// entry on ties)
+	land := func(root *rtree.VerifNode, x, y float64) []*rtree.VerifNode {
+		path := []*rtree.VerifNode{root}
+		n := root
+		for !n.Leaf {
+			bi, bd := 0, math.MaxFloat64
+			for i, b := range n.Boxes {
+				u := b
+				u.Min.X, u.Min.Y = math.Min(u.Min.X, x), math.Min(u.Min.Y, y)
+				u.Max.X, u.Max.Y = math.Max(u.Max.X, x), math.Max(u.Max.Y, y)
+				if d := area(u) - area(b); d < bd || (d == bd && area(b) < area(n.Boxes[bi])) {
+					bi, bd = i, d
+				}
+			}
+			n = n.Children[bi]
+			path = append(path, n)
+		}
+		return path
+	}
+	for it := 0; it < op.Kn; it++ {
+		root, _ := t.VerifSnapshot()
+		if root == nil || root.Leaf {
+			return
+		}
+		// the child of the root to leave alone
+		var chain func(n *rtree.VerifNode) bool
+		chain = func(n *rtree.VerifNode) bool {
+			if len(n.Boxes) > t.MinChildren {
+				return false
+			}
+			if n.Leaf {
+				return len(n.Objs) > 0
+			}
+			for _, c := range n.Children {
+				if chain(c) {
+					return true
+				}
+			}
+			return false
+		}
+		var keep *rtree.VerifNode
+		for _, c := range root.Children {
+			if chain(c) {
+				keep = c
+				break
+			}
+		}
+		if keep == nil {
+			return
+		}
+		// the lowest node outside keep that is not full
+		var low *rtree.VerifNode
+		var find func(n *rtree.VerifNode)
+		find = func(n *rtree.VerifNode) {
+			if n == keep {
+				return
+			}
+			if len(n.Boxes) < t.MaxChildren && (low == nil || n.Level < low.Level) {
+				low = n
+			}
+			for _, c := range n.Children {
+				find(c)
+			}
+		}
+		find(root)
+		if low == nil {
+			return
+		}
+		// the leaves below it (all of them full unless it is a leaf itself)
+		var leaves []*rtree.VerifNode
+		var collect func(n *rtree.VerifNode)
+		collect = func(n *rtree.VerifNode) {
+			if n.Leaf {
+				leaves = append(leaves, n)
+			}
+			for _, c := range n.Children {
+				if c != keep {
+					collect(c)
+				}
+			}
+		}
+		collect(low)
+		// candidate positions: inside the box of a leaf below low (between the centres of two of its objects, at a
+		// fraction that changes with every insertion, so that positions do not pile up). A candidate is acceptable when
+		// it is predicted to stay out of keep and to pass a node that is not full, so that the root is not split;
+		// the first acceptable one that lands in the leaf it was made for is taken, else the first acceptable one.
+		frac := math.Mod(float64(it+1)*0.6180339887498949+float64(op.Idx%97)/97, 1)
+		have, hx, hy := false, 0.0, 0.0
+		placed := false
+		for li := 0; li < len(leaves) && !placed; li++ {
+			leaf := leaves[(li+op.Idx+it)%len(leaves)]
+			nb := len(leaf.Boxes)
+			for a := 0; a < nb && !placed; a++ {
+				b0, b1 := leaf.Boxes[a], leaf.Boxes[(a+1+it%3)%nb]
+				x := (b0.Min.X+b0.Max.X)/2*(1-frac) + (b1.Min.X+b1.Max.X)/2*frac
+				y := (b0.Min.Y+b0.Max.Y)/2*(1-frac) + (b1.Min.Y+b1.Max.Y)/2*frac
+				if x != x || y != y || math.IsInf(x, 0) || math.IsInf(y, 0) {
+					continue
+				}
+				path := land(root, x, y)
+				ok := path[1] != keep
+				room := false
+				for _, n := range path {
+					if len(n.Boxes) < t.MaxChildren {
+						room = true
+					}
+				}
+				if !ok || !room {
+					continue
+				}
+				if path[len(path)-1] == leaf {
+					hx, hy, have, placed = x, y, true, true
+				} else if !have {
+					hx, hy, have = x, y, true
+				}
+			}
+		}
+		if !have {
+			return
+		}
+		o := m.mkAt(hx, hy)
+		t.Insert(o)
+		m.Live = append(m.Live, o)
+	}
 }
 
 // Absent returns an object that is not stored but looks like stored object o.
@@ -408,6 +596,72 @@ func (m *Model) Step(op Op, ev *Events, check bool) string {
 			return ""
 		}
 		return m.del(op.Idx%len(m.Live), ev, check)
+	case "delchain":
+		// delete an object of the leaf that hangs on the longest chain of ancestors holding just the minimum number of
+		// entries (read from the verif snapshot): the one Delete that makes a whole chain of nodes underflow. Idx picks among
+		// the leaves with the longest chain.
+		if len(m.Live) == 0 {
+			return ""
+		}
+		root, _ := t.VerifSnapshot()
+		var best []*rtree.VerifNode
+		bestLen := -1
+		var walk func(n *rtree.VerifNode, chain int)
+		walk = func(n *rtree.VerifNode, chain int) {
+			if n == nil {
+				return
+			}
+			c := 0
+			if len(n.Boxes) <= t.MinChildren && n != root {
+				c = chain + 1
+			}
+			if n.Leaf {
+				if len(n.Objs) > 0 {
+					if c > bestLen {
+						best, bestLen = nil, c
+					}
+					if c == bestLen {
+						best = append(best, n)
+					}
+				}
+				return
+			}
+			for _, ch := range n.Children {
+				walk(ch, c)
+			}
+		}
+		walk(root, 0)
+		if len(best) == 0 {
+			return ""
+		}
+		leaf := best[op.Idx%len(best)]
+		target := leaf.Objs[op.Idx%len(leaf.Objs)]
+		for i, o := range m.Live {
+			if o == target {
+				return m.del(i, ev, check)
+			}
+		}
+		return ""
+	case "fill":
+		m.fill(op)
+	case "delnear":
+		if len(m.Live) == 0 {
+			return ""
+		}
+		c := m.Live[op.Idx%len(m.Live)].Bounds()
+		cx, cy := (c.Min.X+c.Max.X)/2, (c.Min.Y+c.Max.Y)/2
+		for k := 0; k < op.Kn && len(m.Live) > 0; k++ {
+			best, bd := 0, math.Inf(1)
+			for i, o := range m.Live {
+				b := o.Bounds()
+				if d := math.Hypot((b.Min.X+b.Max.X)/2-cx, (b.Min.Y+b.Max.Y)/2-cy); d < bd || (d != d && bd == math.Inf(1)) {
+					best, bd = i, d
+				}
+			}
+			if msg := m.del(best, ev, check); msg != "" {
+				return msg
+			}
+		}
 	case "delabsent":
 		var o geom.Geom
 		ok := false
